@@ -243,7 +243,7 @@ def classify(name, case, r, w=80, h=25):
             return {'signature': 'C03-alloc:%s' % name, 'input': case, 'impl': v,
                     'expected': 'line table grows by at most %d rows / %d cells, sixel image <= 256 MiB' % (lim_rows, lim_cells),
                     'detail': 'rows %d -> %d, cells %d -> %d, sixel bytes %d' % (rows0, rows1, cells0, cells1, v[12])}
-    if cls == 'ok' and (case.startswith('load ') or case.startswith('font ') or case.startswith('sixel ')):
+    if cls == 'ok' and (case.startswith('load ') or case.startswith('font ') or case.startswith('c03sixel ')):
         v = r[1]
         if v[0] > 5_000_000:
             return {'signature': 'C03-timeout:%s' % name, 'input': case, 'impl': v, 'detail': 'took %d us' % v[0]}
@@ -399,7 +399,7 @@ def replay(ctx, body):
     import json
     inp = body.get('input')
     print('replay', ID, inp)
-    if isinstance(inp, str) and inp.split()[0] in ('seq', 'load', 'font', 'sixel', 'feed'):
+    if isinstance(inp, str) and inp.split()[0] in ('seq', 'load', 'font', 'c03sixel', 'feed'):
         ok, out = driver.stage_build()
         r = ctx.impl([inp], per_case_timeout=5, mem_mb=1024)[0]
         print('implementation:', r)
